@@ -14,6 +14,30 @@ pub mod states;
 pub mod tabledrv;
 pub mod validate;
 
+/// The process-global allocator: the system allocator plus a watch on the largest single request, switched on by a
+/// check around a call (C20: a deserializer's claimed length must not drive ANY allocation, also not one that bypasses
+/// the collection's own allocator, such as a staging buffer).
+struct WatchAlloc;
+unsafe impl std::alloc::GlobalAlloc for WatchAlloc {
+    unsafe fn alloc(&self, l: std::alloc::Layout) -> *mut u8 {
+        util::galloc_note(l.size());
+        std::alloc::System.alloc(l)
+    }
+    unsafe fn dealloc(&self, p: *mut u8, l: std::alloc::Layout) {
+        std::alloc::System.dealloc(p, l)
+    }
+    unsafe fn alloc_zeroed(&self, l: std::alloc::Layout) -> *mut u8 {
+        util::galloc_note(l.size());
+        std::alloc::System.alloc_zeroed(l)
+    }
+    unsafe fn realloc(&self, p: *mut u8, l: std::alloc::Layout, new_size: usize) -> *mut u8 {
+        util::galloc_note(new_size);
+        std::alloc::System.realloc(p, l, new_size)
+    }
+}
+#[global_allocator]
+static GLOBAL: WatchAlloc = WatchAlloc;
+
 fn main() {
     let args: Vec<String> = std::env::args().skip(1).collect();
     util::install_quiet_panic_hook();
